@@ -80,6 +80,74 @@ K_LISTARG = 'C18:SDVPN:list-arguments'
 K_ASSERT = 'C18:pos_to_a12:in-plane-assert-absolute-tolerance:small-cell'
 K_XVREF = 'C18:xvect:out-of-plane-accepted:small-cell'
 K_ARCSTEP = 'C18:pn_arctan:incompatible-xstep-accepted:small-scale'
+K_DTYPE = 'C18:SDVPN:x-disregistry:arithmetic-in-the-storage-dtype'
+K_ARCX = 'C18:pn_arctan:x:list-or-narrow-dtype'
+K_ALIASV = 'C18:GammaSurface:set:a1vect-a2vect-array-aliased'
+K_ALIASBOX = 'C18:GammaSurface:set:box-kept-by-reference'
+K_PNSHARE = 'C18:SDVPN:arrays-shared-with-the-caller'
+K_F16 = 'C18:GammaSurface:float16-positions-and-xvect'
+
+# ----------------------------------------------------------------------------- working units
+# Under a unit plan (gens_c18.unit_plans) the case is the same PHYSICAL system expressed in other working units: every
+# length carries the factor _U['L'] (= numericalunits.angstrom after reset_units), every energy per area _U['EA']
+# (= eV / angstrom^2), my own products of numericalunits attributes; without a plan both are exactly 1.
+_U = {'on': False, 'L': 1.0, 'EA': 1.0}
+
+
+def _scales(lk, ej=None):
+    """length scale and energy-per-area scale of a case: 10^lk, 10^ej (times the working-unit factors under a unit plan)"""
+    l, e = G.pow10(lk), G.pow10(ej)
+    if _U['on']:
+        l, e = l * _U['L'], e * _U['EA']
+    return l, e
+
+
+def _default_cutoff():
+    """the documented default of cutofflongrange: 1000 angstrom, in working units"""
+    return 1000.0 * _U['L'] if _U['on'] else 1000.0
+
+
+def _cfg_text(cfg):
+    if cfg['kind'] == 'named':
+        return 'reset_units(%s)' % ', '.join('%s=%r' % kv for kv in sorted(cfg['units'].items()))
+    return 'reset_units(seed=%r)' % ('SI' if cfg['kind'] == 'SI' else cfg['seed'])
+
+
+def with_units(fn):
+    """oracle wrapper: runs the case under its unit plan - first (plan['pre']) under the default working units, judged all
+    the same, then after reset_units(plan['W']) with every length and energy re-expressed; the default working units are
+    ALWAYS restored (the cases of one shard share a process)"""
+    def wrapped(case):
+        plan = case.get('units')
+        if not plan:
+            return fn(case)
+        import atomman.unitconvert as uc
+        import numericalunits as nu
+        try:
+            if plan['pre']:
+                try:
+                    fn(case)
+                except Violation as v:
+                    raise Violation('%s [under the default working units, before %s]' % (v.detail, _cfg_text(plan['W'])), key=v.key) from None
+            G.apply_units(uc, plan['W'])
+            _U.update(on=True, L=float(nu.angstrom), EA=float(nu.eV / nu.angstrom ** 2))
+            try:
+                labels = set(fn(case))
+            except Violation as v:
+                raise Violation('%s [under %s (1 angstrom = %.6g, 1 eV/angstrom^2 = %.6g working units)%s]'
+                                % (v.detail, _cfg_text(plan['W']), _U['L'], _U['EA'],
+                                   ', after the same case was judged under the default units in the same process' if plan['pre'] else ''),
+                                key=v.key) from None
+            labels |= {'units', 'units_' + plan['W']['kind'],
+                       'units_L_1' if _U['L'] == 1.0 else ('units_L_small' if _U['L'] < 1.0 else 'units_L_big')}
+            if plan['pre']:
+                labels.add('units_pre_default')
+            return labels
+        finally:
+            _U.update(on=False, L=1.0, EA=1.0)
+            G.restore_units(uc)
+    wrapped.__name__ = fn.__name__
+    return wrapped
 
 
 def scale_labels(lk, ej=None):
@@ -126,6 +194,8 @@ def keyed_inplane_assert(fn):
             return fn(case)
         except AssertionError as e:
             lk = _case_min_lk(case)
+            if case.get('units') and _from_pos_to_a12(e):
+                lk = min(lk, -1)
             if lk < 0 and _from_pos_to_a12(e):
                 raise Violation('GammaSurface.pos_to_a12 raised AssertionError(%s) for positions a1*a1vect + a2*a2vect in a cell scaled by '
                                 '1e%d: the in-plane test is np.allclose(coefficient of a1vect x a2vect, 0, atol=1e-6), a quantity of '
@@ -140,7 +210,7 @@ def keyed_inplane_assert(fn):
 def surface_args(s):
     """keyword arguments of GammaSurface(...) / GammaSurface.set(...) for a surface case + my own description of it"""
     import atomman as am
-    l, e = G.pow10(s.get('lk')), G.pow10(s.get('ej'))
+    l, e = _scales(s.get('lk'), s.get('ej'))
     V = G.box_vects(s['box'], l)
     box = None if s['box'] is None else am.Box(vects=V)
     # without a box the shift vectors are Cartesian and carry the length scale themselves
@@ -225,6 +295,8 @@ def surface_labels(s, info):
         labs.add('n1_ne_n2')
     if s['shuffle'] is not None:
         labs.add('shuffled')
+    if s.get('shape') in ('sym', 'near'):
+        labs.add('shape_' + s['shape'])
     return labs
 
 
@@ -316,6 +388,108 @@ def _tree_listarg_broken():
     return _PROBE['listarg']
 
 
+def _tree_dtype_broken():
+    """probe of the tree under test for the open finding K_DTYPE: the SDVPN energy methods compute in the storage dtype of
+    the x / disregistry they are handed (cached per process)"""
+    if 'dtype' not in _PROBE:
+        try:
+            import atomman as am
+            g = am.defect.GammaSurface(a1vect=[1, 0, 0], a2vect=[0, 0, 1], a1=[0.0, 0.0, 0.5, 0.5], a2=[0.0, 0.5, 0.0, 0.5],
+                                       E_gsf=[0.0, 1.0, 1.0, 2.0])
+            vol = _hand_volterra_class(am)(np.array([1.0, 0, 0]), np.array([0, 1.0, 0]), np.eye(3), np.array([1.0, 0, 0]), np.eye(3))
+            pn = am.defect.SDVPN(volterra=vol, gamma=g, alpha=[0.5])
+            xs = np.arange(6.0)
+            ds = np.array([[0.0, 0, 1], [1.0, 0, 0], [1.0, 0, 2], [3.0, 0, 1], [2.0, 0, 1], [4.0, 0, 0]])
+            ok = True
+            for dt in ('u1', 'f2', 'f4'):
+                for a, b in ((xs.astype(dt), ds.astype(dt)), (xs, ds.astype(dt))):
+                    for f in (pn.elastic_energy, pn.nonlocal_energy):
+                        ok = ok and abs(float(f(a, b)) - float(f(xs, ds))) <= 1e-12 * abs(float(f(xs, ds)))
+            pn.x, pn.disregistry = xs, ds.astype('u1')
+            ok = ok and abs(float(pn.elastic_energy()) - float(pn.elastic_energy(xs, ds))) <= 1e-12 * abs(float(pn.elastic_energy(xs, ds)))
+            _PROBE['dtype'] = not ok
+        except Exception:
+            _PROBE['dtype'] = True
+    return _PROBE['dtype']
+
+
+def _tree_arcx_broken():
+    """probe of the tree under test for the open finding K_ARCX: pn_arctan_disregistry / pn_arctan_disldensity cannot take x
+    as a list and compute in the storage dtype of a float32 / float16 x (cached per process)"""
+    if 'arcx' not in _PROBE:
+        try:
+            import atomman as am
+            ref = np.asarray(am.defect.pn_arctan_disldensity(x=np.array([-1.5, 0.25, 2.0]), halfwidth=0.75)[1], dtype=float)
+            ok = True
+            for xx in ([-1.5, 0.25, 2.0], (-1.5, 0.25, 2.0), np.array([-1.5, 0.25, 2.0], dtype='f4'), np.array([-1.5, 0.25, 2.0], dtype='f2')):
+                got = np.asarray(am.defect.pn_arctan_disldensity(x=xx, halfwidth=0.75)[1], dtype=float)
+                ok = ok and got.shape == ref.shape and bool(np.abs(got - ref).max() <= 1e-13)
+                am.defect.pn_arctan_disregistry(x=xx, halfwidth=0.75)
+            _PROBE['arcx'] = not ok
+        except Exception:
+            _PROBE['arcx'] = True
+    return _PROBE['arcx']
+
+
+def _tree_f16_broken():
+    """probe of the tree under test for the open finding K_F16: half-precision positions / plotting axes (cached per process)"""
+    if 'f16' not in _PROBE:
+        try:
+            import atomman as am
+            g = am.defect.GammaSurface(a1vect=[1.25, 0.5, -0.25], a2vect=[0.5, 1.5, 0.75], a1=[0.0, 0.0, 0.5, 0.5], a2=[0.0, 0.5, 0.0, 0.5],
+                                       E_gsf=[0.0, 1.0, 1.0, 2.0])
+            r = g.pos_to_a12(np.array([[1.75, 2.0, 0.5], [0.5, 1.5, 0.75]], dtype='f2'))
+            ok = bool(np.allclose(r[0], [1.0, 0.0], atol=1e-9) and np.allclose(r[1], [1.0, 1.0], atol=1e-9))
+            g.pos_to_xy(np.zeros((2, 3)), xvect=np.array([1.75, 2.0, 0.5], dtype='f2'))
+            g.xy_to_pos([0.0], [1.0], xvect=np.array([1.75, 2.0, 0.5], dtype='f2'))
+            _PROBE['f16'] = not ok
+        except Exception:
+            _PROBE['f16'] = True
+    return _PROBE['f16']
+
+
+def keyed_f16(fn):
+    """oracle wrapper for the open finding K_F16: GammaSurface does its own arithmetic in the dtype of a half-precision
+    array - pos_to_a12 hands float16 positions to numpy.linalg.solve (TypeError: array type float16 is unsupported in
+    linalg), pos_to_xy / xy_to_pos evaluate the in-plane tolerance 1e-8 * |xvect| in float16, where it underflows to 0, and
+    refuse an in-plane xvect.  Only cases that hand over float16 arrays are keyed, only while the tree under test does that"""
+    def wrapped(case):
+        try:
+            return fn(case)
+        except (TypeError, ValueError, Violation) as e:
+            if case.get('form') == 'nd:f2' and getattr(e, 'key', None) is None and _tree_f16_broken():
+                if isinstance(e, Violation) or 'float16 is unsupported in linalg' in str(e) or 'xvect must be in plane' in str(e):
+                    raise Violation('positions / plotting axis handed over as float16 arrays (exactly representable values): %s%s'
+                                    % ('' if isinstance(e, Violation) else type(e).__name__ + ': ', getattr(e, 'detail', e)), key=K_F16) from None
+            raise
+    wrapped.__name__ = fn.__name__
+    return wrapped
+
+
+def _profiles_of(case):
+    h = case.get('hist')
+    steps = h if isinstance(h, list) else ([h] if h else [])
+    return [case['prof']] + [t['prof'] for t in steps if isinstance(t, dict) and 'prof' in t]
+
+
+def keyed_dtype(fn):
+    """oracle wrapper for the open finding K_DTYPE: SDVPN.disldensity and the energy methods slice, subtract and square
+    x / the disregistry in the dtype they arrive in (np.asarray without dtype; the disregistry setter keeps the dtype too):
+    wrapped differences for unsigned dtypes, overflowing squares for int8 / float16, single-precision sums for float32.
+    While the finding is open on the tree under test, a failure of a case that hands over x or the disregistry in a storage
+    dtype is keyed (the other cases are judged as before)"""
+    def wrapped(case):
+        try:
+            return fn(case)
+        except Violation as v:
+            if v.key is None and any(G.is_narrow(p.get('fx')) or G.is_narrow(p.get('fd')) for p in _profiles_of(case)) and _tree_dtype_broken():
+                raise Violation('x / disregistry handed over in a storage dtype (float32, float16, int8, uint8 ...; values exactly '
+                                'representable): ' + v.detail, key=K_DTYPE) from None
+            raise
+    wrapped.__name__ = fn.__name__
+    return wrapped
+
+
 class _BlockedGuard(dict):
     """min_share of a clause that is blocked completely while K_MULTI is open: empty on such a tree.  drop: labels
     carried only by cases that an open finding (K_ALT / K_LISTARG) excludes - not guarded while that finding is open"""
@@ -357,11 +531,33 @@ def _strided(a):
     return b[:, ::2]
 
 
+_CHAIN = {'f2': ('f2', 'f4'), 'f4': ('f4',), 'i1': ('i1', 'i2', 'i4', 'i8'), 'i2': ('i2', 'i4', 'i8'), 'u1': ('u1', 'u2', 'u4', 'i8'),
+          'u2': ('u2', 'u4', 'i8'), '>f8': ('>f8',), '>i4': ('>i4', '>f8')}
+
+
+def _as_dtype(a, dt, what=''):
+    """the float values a as an ndarray of storage dtype dt when every value is exactly representable in it, otherwise in the
+    next wider dtype of its chain, otherwise None.  Integer dtypes need whole numbers (otherwise float32 is tried)"""
+    chain = _CHAIN[dt]
+    if chain[0][-2] in 'iu' and not bool(np.all(a == np.rint(a))):
+        chain = ('f4',)
+    for d in chain:
+        with np.errstate(all='ignore'):
+            b = a.astype(d)
+            back = b.astype(float)
+        if back.shape == a.shape and np.array_equal(back, a):
+            return b
+    return None
+
+
 class _Hand:
     """hands values to atomman in the drawn input form and keeps every object handed over: the caller's objects must be
     unchanged after the calls (verify).  Forms: 'arr' float C-contiguous ndarray, 'list', 'tuple' (nested), 'ro' read-only
     ndarray, 'strided' non-contiguous view, 'int' integer-typed ndarray (whole-number values only, otherwise 'arr'),
-    'intlist' list of Python ints (same), 'npscalar' numpy scalars for single values (arrays as 'arr')."""
+    'intlist' list of Python ints (same), 'npscalar' numpy scalars for single values (arrays as 'arr'), 'nd:<dtype>' ndarray /
+    numpy scalar of a storage dtype (float32, float16, int8, int16, uint8, uint16, big-endian float64 / int32) when the values
+    are exactly representable in it (see _as_dtype; otherwise 'arr'), 'fortran' Fortran-ordered 2-D array / reversed-stride
+    1-D view."""
 
     def __init__(self, form):
         self.form = form
@@ -372,6 +568,12 @@ class _Hand:
         f = form or self.form
         a = np.asarray(a, dtype=float)
         if a.ndim == 0:
+            if f.startswith('nd:'):
+                b = _as_dtype(a.reshape(1), f[3:], what)
+                if b is not None:
+                    self.used.add('narrow')
+                    return b[0]
+                return float(a)
             if f == 'npscalar':
                 return np.float64(a)
             if f in ('int', 'intlist') and float(a).is_integer():
@@ -394,6 +596,17 @@ class _Hand:
         elif f == 'intlist' and whole:
             obj = a.astype(int).tolist()
             self.used.add('int')
+        elif f == 'fortran':
+            if a.ndim == 2:
+                obj = np.asfortranarray(a)
+            else:
+                obj = np.zeros(len(a))[::-1]
+                obj[...] = a
+            self.used.add('narrow')
+        elif f.startswith('nd:') and _as_dtype(a, f[3:], what) is not None:
+            obj = _as_dtype(a, f[3:], what)
+            self.used.add('narrow')
+            self.used.add('narrow_' + obj.dtype.str.lstrip('<|='))
         else:
             obj = a.copy()
         snap = obj.copy() if isinstance(obj, np.ndarray) else obj      # lists: tolist() of the float original below
@@ -568,6 +781,8 @@ def oracle_periodic(case):
 
     labels.add('scalar' if scalar else ('list' if al else 'array'))
     labels.add('npts%d' % len(q))
+    if case.get('qkind') == 'special':
+        labels.add('special_q')
     fns = [('E_gsf', g.E_gsf, info['Et'], info['Erange'])]
     if info['D'] is not None:
         fns.append(('delta', g.delta, info['Dt'], info['Drange']))
@@ -688,6 +903,29 @@ def _case_form(case):
     return ('list' if case['aslist'] else 'arr') if f == 'plain' else f
 
 
+def _form_label(case):
+    f = case.get('form') or 'plain'
+    return 'form_narrow' if G.is_narrow(f) else 'form_' + f
+
+
+def _offplane(case, info, P, xv):
+    """near-threshold inputs: the positions / the plotting axis handed to atomman a relative 10^-k OUT of the fault plane
+    (k >= 9: the in-plane tests have tolerances of 1e-6 and 1e-8); the references stay the in-plane ones"""
+    off = case.get('off') or {}
+    nrm = np.cross(info['A1'], info['A2'])
+    nrm = nrm / np.linalg.norm(nrm)
+    L = max(np.linalg.norm(info['A1']), np.linalg.norm(info['A2']))
+    sg = float(off.get('sign') or 1.0)
+    Pin, xin, labs = P, xv, set()
+    if off.get('pos') is not None:
+        Pin = P + sg * 10.0 ** (-off['pos']) * L * nrm
+        labs.add('near_plane_pos')
+    if off.get('xvect') is not None and xv is not None:
+        xin = xv + sg * 10.0 ** (-off['xvect']) * float(np.linalg.norm(xv)) * nrm
+        labs.add('near_plane_xvect')
+    return Pin, xin, labs
+
+
 def _coords_checks(g, s, info, case, sm, labels, rnd=0):
     A1, A2 = info['A1'], info['A2']
     cond = gsf_ref.basis_cond(A1, A2)
@@ -705,18 +943,22 @@ def _coords_checks(g, s, info, case, sm, labels, rnd=0):
     if case['xv'] is not None:
         xv = case['xv'][0] * A1 + case['xv'][1] * A2
         labels.add('xvect')
-    kw_x = {} if xv is None else {'xvect': H(xv, 'xvect')}
     P = gsf_ref.frac_to_pos(u, v, A1, A2)
+    Pin, xin, offlabs = _offplane(case, info, P, xv)
+    labels.update(offlabs)
+    kw_x = {} if xv is None else {'xvect': H(xin, 'xvect')}
     X, Y = gsf_ref.pos_to_xy(P, A1, A2, xv)
     labels.add('npts%d' % n)
     labels.add('scalar' if scalar else ('list' if form == 'list' else 'array'))
-    labels.add('form_' + (case.get('form') or 'plain'))
+    labels.add(_form_label(case))
+    if case.get('qkind') == 'special':
+        labels.add('special_q')
     if scalar:
         for i in range(n):
             p = np.asarray(g.a12_to_pos(H(u[i]), H(v[i])), dtype=float)
             require(p.shape in ((3,), (1, 3)), lambda: 'a12_to_pos(float, float) returned shape %r' % (p.shape,))
             _cmp(p.reshape(3), P[i], tol_pos, 'a12_to_pos(%r, %r)' % (u[i], v[i]))
-            x1, y1 = g.pos_to_xy(H(P[i], 'pos'), **kw_x)
+            x1, y1 = g.pos_to_xy(H(Pin[i], 'pos'), **kw_x)
             require(np.ndim(x1) == 0 and np.ndim(y1) == 0, lambda: 'pos_to_xy(single position) returned shapes %r %r' % (np.shape(x1), np.shape(y1)))
             _cmp([float(x1), float(y1)], [X[i], Y[i]], tol_pos, 'pos_to_xy(single position)')
             p2 = np.asarray(g.xy_to_pos(H(X[i]), H(Y[i]), **kw_x), dtype=float)
@@ -724,13 +966,13 @@ def _coords_checks(g, s, info, case, sm, labels, rnd=0):
             _cmp(p2.reshape(3), P[i], 4 * tol_pos, 'xy_to_pos(pos_to_xy(p))')
             xy = g.a12_to_xy(H(u[i]), H(v[i]), **kw_x)
             _cmp([float(np.asarray(xy[0]).reshape(())), float(np.asarray(xy[1]).reshape(()))], [X[i], Y[i]], 2 * tol_pos, 'a12_to_xy(float, float)')
-            r = g.pos_to_a12(H(P[i], 'pos'))
+            r = g.pos_to_a12(H(Pin[i], 'pos'))
             require(np.ndim(r[0]) == 0 and np.ndim(r[1]) == 0, lambda: 'pos_to_a12(single position) returned shapes %r %r' % (np.shape(r[0]), np.shape(r[1])))
             _cmp([float(r[0]), float(r[1])], [u[i], v[i]], tol_uv, 'pos_to_a12(a12_to_pos(a1,a2)) single position')
     else:
         p = g.a12_to_pos(H(u, 'a1'), H(v, 'a2'))
         _cmp(p, P, tol_pos, 'a12_to_pos(%d points)' % n)
-        x1, y1 = _shape_pair(g.pos_to_xy(H(P, 'pos'), **kw_x), n, 'pos_to_xy')
+        x1, y1 = _shape_pair(g.pos_to_xy(H(Pin, 'pos'), **kw_x), n, 'pos_to_xy')
         _cmp(x1, X, tol_pos, 'pos_to_xy x'); _cmp(y1, Y, tol_pos, 'pos_to_xy y')
         p2 = g.xy_to_pos(H(X, 'x'), H(Y, 'y'), **kw_x)
         _cmp(p2, P, 4 * tol_pos, 'xy_to_pos(pos_to_xy(p)) for %d points' % n)
@@ -749,7 +991,7 @@ def _coords_checks(g, s, info, case, sm, labels, rnd=0):
         base, lo, hi, hit = eval_band(g.E_gsf, u[i], v[i], sm, bool(s['dup']))
         if hit:
             labels.add('seam_band')
-        e_p = g.E_gsf(pos=H(P[i], 'pos'), smooth=sm)
+        e_p = g.E_gsf(pos=H(Pin[i], 'pos'), smooth=sm)
         require(np.ndim(e_p) == 0, lambda: 'E_gsf(pos=single position) returned shape %r' % (np.shape(e_p),))
         _in_band(float(e_p), lo, hi, 1e-8 * rng * cond, 'E_gsf(pos=p, smooth=%r) vs E_gsf(a1=%r, a2=%r)' % (sm, u[i], v[i]))
         # the same query given in the drawn input form (single values: Python / numpy scalars, ints for whole numbers)
@@ -758,6 +1000,7 @@ def _coords_checks(g, s, info, case, sm, labels, rnd=0):
     H.verify(' [E_gsf]')
     if 'int' in H.used:
         labels.add('int_typed')
+    labels.update(t for t in H.used if t.startswith('narrow'))
     # documented refusal: xvect out of the fault plane
     if xv is not None and n == 1:
         bad = xv + 0.3 * np.linalg.norm(xv) * np.cross(A1, A2) / np.linalg.norm(np.cross(A1, A2))
@@ -770,7 +1013,7 @@ def _coords_checks(g, s, info, case, sm, labels, rnd=0):
             # the test is np.isclose(xvect . planenormal, 0) with numpy's absolute 1e-8 on a length: open finding for
             # cells of numerically small size (keyed only there; deferred: everything else of the case has been judged)
             v = Violation('pos_to_xy with an xvect out of the fault plane (by 17 degrees, |xvect| = %.3g) did not raise ValueError'
-                          % np.linalg.norm(bad), key=K_XVREF if info['lk'] <= -8 else None)
+                          % np.linalg.norm(bad), key=K_XVREF if np.linalg.norm(bad) <= 2e-6 else None)
             if v.key is None:
                 raise v
             if not _DEFER:
@@ -827,15 +1070,19 @@ def _multi_checks(g, s, info, case, sm, labels, rnd=0):
     if case['xv'] is not None:
         xv = case['xv'][0] * A1 + case['xv'][1] * A2
         labels.add('xvect')
-    kw_x = {} if xv is None else {'xvect': H(xv, 'xvect')}
     P = gsf_ref.frac_to_pos(u, v, A1, A2)
+    Pin, xin, offlabs = _offplane(case, info, P, xv)
+    labels.update(offlabs)
+    kw_x = {} if xv is None else {'xvect': H(xin, 'xvect')}
     X, Y = gsf_ref.pos_to_xy(P, A1, A2, xv)
     labels.add('npts%d' % n)
     labels.add('scalar' if scalar else ('list' if form == 'list' else 'array'))
-    labels.add('form_' + (case.get('form') or 'plain'))
+    labels.add(_form_label(case))
+    if case.get('qkind') == 'special':
+        labels.add('special_q')
     labels.add('smooth' if sm else 'nearest')
     # --- conversions back to fractional coordinates
-    gu, gv = _shape_pair(g.pos_to_a12(H(P, 'pos')), n, 'pos_to_a12((%d,3) array)' % n)
+    gu, gv = _shape_pair(g.pos_to_a12(H(Pin, 'pos')), n, 'pos_to_a12((%d,3) array)' % n)
     _cmp(gu, u, tol_uv, 'pos_to_a12(a12_to_pos(a1,a2)) a1, %d points' % n)
     _cmp(gv, v, tol_uv, 'pos_to_a12(a12_to_pos(a1,a2)) a2, %d points' % n)
     if scalar:
@@ -872,7 +1119,7 @@ def _multi_checks(g, s, info, case, sm, labels, rnd=0):
             labels.add('seam_band')
         ef2 = np.asarray(fn(a1=H(u, 'a1'), a2=H(v, 'a2'), smooth=sm), dtype=float)
         _cmp(ef2, ef, 0.0, '%s(a1=, a2=) given as %s vs float array input' % (name, form))
-        ep = np.asarray(fn(pos=H(P, 'pos'), smooth=sm), dtype=float)
+        ep = np.asarray(fn(pos=H(Pin, 'pos'), smooth=sm), dtype=float)
         require(ef.shape == (n,) and ep.shape == (n,), lambda: '%s shapes: a1/a2 %r, pos %r for %d points' % (name, ef.shape, ep.shape, n))
         _in_band(ep[ok], lo[ok], hi[ok], tol, '%s(pos=(%d,3) array, smooth=%r) vs %s(a1=, a2=)' % (name, n, sm, name))
         if scalar:
@@ -889,6 +1136,7 @@ def _multi_checks(g, s, info, case, sm, labels, rnd=0):
     if case['alt'] is not None:
         xvc = case.get('xvc') or [1, -1]
         xve = xvc[0] * A1 + xvc[1] * A2
+        xve_in = _offplane(case, info, P, xve)[1]
         sets = list(_alt_vector_sets(case, info))
         if rnd:
             sets = [sets[rnd % 3]]
@@ -913,10 +1161,10 @@ def _multi_checks(g, s, info, case, sm, labels, rnd=0):
             tag = ' [a1vect=%r, a2vect=%r]' % (B1.tolist() if 'a1vect' in ka else None, B2.tolist() if 'a2vect' in ka else None)
             pp = g.a12_to_pos(H(st_[0], 'a1'), H(st_[1], 'a2'), **ka)
             _cmp(pp, P, tol_p, 'a12_to_pos(a1, a2, alternative vectors)' + tag)
-            r = g.pos_to_a12(H(P, 'pos'), **ka)
+            r = g.pos_to_a12(H(Pin, 'pos'), **ka)
             _cmp(r[0], st_[0], tol_st, 'pos_to_a12(alternative vectors) a1' + tag); _cmp(r[1], st_[1], tol_st, 'pos_to_a12(alternative vectors) a2' + tag)
             for xname in ('xdefault', 'xexplicit'):
-                kx = {} if xname == 'xdefault' else {'xvect': H(xve, 'xvect')}
+                kx = {} if xname == 'xdefault' else {'xvect': H(xve_in, 'xvect')}
                 xeff = xve if kx else (B1c if 'a1vect' in ka else A1)
                 Xc, Yc = gsf_ref.pos_to_xy(P, A1, A2, xeff)
                 tg = tag + (' [xvect=%r]' % xve.tolist() if kx else ' [default xvect]')
@@ -936,7 +1184,7 @@ def _multi_checks(g, s, info, case, sm, labels, rnd=0):
                 ea = np.asarray(fn(a1=H(st_[0], 'a1'), a2=H(st_[1], 'a2'), smooth=sm, **ka), dtype=float)
                 require(ea.shape == (n,), lambda: '%s(a1vect=, a2vect=) returned shape %r for %d points' % (name, ea.shape, n))
                 _in_band(ea[ok], lo[ok], hi[ok], tol * condM * 4, '%s(a1=, a2=, alternative vectors) vs the same positions in the stored vectors%s' % (name, tag))
-                ep = np.asarray(fn(pos=H(P, 'pos'), smooth=sm, **ka), dtype=float)
+                ep = np.asarray(fn(pos=H(Pin, 'pos'), smooth=sm, **ka), dtype=float)
                 _alt_judge(name + '(pos=, alternative vectors)' + tag, ep, fn, st_, sm, ok, lo, hi, tol * condM * 4, n)
             labels.add('altvect')
             H.verify(' [alternative vectors]')
@@ -959,14 +1207,15 @@ def _multi_checks(g, s, info, case, sm, labels, rnd=0):
         H.verify(' [integer plotting coordinates]')
     if 'int' in H.used:
         labels.add('int_typed')
+    labels.update(t for t in H.used if t.startswith('narrow'))
     # --- Cartesian positions given as a plain list (array-like)
     if form in ('list', 'tuple'):
         try:
-            r = g.pos_to_a12(P.tolist())
+            r = g.pos_to_a12(Pin.tolist())
             _cmp(r[0], u, tol_uv, 'pos_to_a12(list of positions) a1')
-            x1, y1 = g.pos_to_xy(P.tolist(), **kw_x)
+            x1, y1 = g.pos_to_xy(Pin.tolist(), **kw_x)
             _cmp(x1, X, 1e-11 * qmax * max(np.linalg.norm(A1), np.linalg.norm(A2)), 'pos_to_xy(list of positions) x')
-            e = np.asarray(g.E_gsf(pos=P.tolist(), smooth=sm), dtype=float)
+            e = np.asarray(g.E_gsf(pos=Pin.tolist(), smooth=sm), dtype=float)
             base, lo, hi, hit = eval_band(g.E_gsf, u, v, sm, bool(s['dup']))
             _in_band(e[ok], lo[ok], hi[ok], 1e-8 * info['Erange'] * cond, 'E_gsf(pos=list)')
         except AttributeError as e:
@@ -1011,7 +1260,17 @@ def oracle_model(case):
     eunit = case['eunit'] or 'mJ/m^2'
     require(sfm['stacking-fault-relation']['energy']['unit'] == eunit, lambda: 'model energy unit %r, asked %r' % (sfm['stacking-fault-relation']['energy']['unit'], eunit))
     ev = np.asarray(sfm['stacking-fault-relation']['energy']['value'], dtype=float)
-    _cmp(uc.set_in_units(ev, eunit), info['E'], 1e-12 * np.abs(info['E']).max(), 'model energy values x unit')
+    # size of the model's units in the CURRENT working units: my own products of numericalunits attributes
+    import numericalunits as nu
+    esize = {'mJ/m^2': nu.mJ / nu.m ** 2, 'eV/angstrom^2': nu.eV / nu.angstrom ** 2, 'J/m^2': nu.J / nu.m ** 2}[eunit]
+    _cmp(ev * esize, info['E'], 1e-12 * np.abs(info['E']).max(), 'model energy values x unit (%s = %r working units)' % (eunit, esize))
+    if info['D'] is not None:
+        lunit = case['lunit'] or 'angstrom'
+        ps = sfm['stacking-fault-relation']['plane-separation']
+        require(ps['unit'] == lunit, lambda: 'model plane-separation unit %r, asked %r' % (ps['unit'], lunit))
+        lsize = {'angstrom': nu.angstrom, 'nm': nu.nm}[lunit]
+        _cmp(np.asarray(ps['value'], dtype=float) * lsize, info['D'], 1e-12 * np.abs(info['D']).max(),
+             'model plane-separation values x unit (%s = %r working units)' % (lunit, lsize))
     fmt = case['fmt']
     labels.add(fmt)
     labels.add('via_' + case['via'])
@@ -1119,7 +1378,7 @@ def build_pn_system(sysc):
     import atomman as am
     fr = sysc['frame']
     if fr[0] == 'vec':
-        R = gens.rotation_matrix(*sysc['rotf'])
+        R = G.rotation_of(sysc['rotf'])
         m, n = R[:, 0].copy(), R[:, 1].copy()
         m_arg, n_arg = m, n
     else:
@@ -1127,10 +1386,10 @@ def build_pn_system(sysc):
         m_arg, n_arg = fr[0], fr[1]
     xi = np.cross(m, n)
     M = np.array([m, n, xi])
-    T = np.eye(3) if sysc['T'] is None else gens.rotation_matrix(*sysc['T'])
+    T = np.eye(3) if sysc['T'] is None else G.rotation_of(sysc['T'])
     # length scale l (Burgers vector, shift vectors), energy-per-area scale e (gamma surface); K_tensor is an energy per
     # volume: e / l
-    l, e = G.pow10(sysc.get('lk')), G.pow10(sysc.get('ej'))
+    l, e = _scales(sysc.get('lk'), sysc.get('ej'))
     ke = e / l
     b = sysc['b'] * l
     phi = math.radians(sysc['phi'])
@@ -1233,9 +1492,17 @@ def build_profile(pr, b_mnx, l=1.0):
     d = np.outer(f, b_mnx)
     for comp, (amp, k), ramp in ((0, pr['pert'][0], pr['ramp'][0]), (2, pr['pert'][1], pr['ramp'][1])):
         d[:, comp] += amp * bmag * np.sin(math.pi * k * t) + ramp * bmag * t
+    if pr.get('kind') == 'decades':
+        # many decades in one call: rows growing geometrically from 1e-9 b to b (edge) and falling from b/2 (screw)
+        gr = 10.0 ** (-9.0 + 9.0 * t)
+        d[:, 0] = bmag * gr
+        d[:, 2] = 0.5 * bmag * gr[::-1]
     d[:, 1] = 0.0
     if pr.get('round'):
         d = np.rint(d / l) * l + 0.0
+    elif pr.get('dy') is not None:
+        # near-threshold: a tiny out-of-plane component (the setter's test is np.allclose(., 0): absolute 1e-8)
+        d[:, 1] = min(10.0 ** (-pr['dy']) * bmag, 1e-10) * np.cos(3.0 * t)
     return x, d
 
 
@@ -1267,6 +1534,12 @@ def pn_labels(case, S, d):
     labs = {'K_' + case['sys']['K']['kind'], 'frame_' + ''.join(case['sys']['frame'])[:6]} | scale_labels(S['lk'], S['ej'])
     if case['sys']['T'] is not None:
         labs.add('crystal_rot')
+    if isinstance(case['sys']['rotf'], dict):
+        labs.add('frame_signed_axes')
+    if case['prof'].get('kind') == 'decades' and not case['prof'].get('round'):
+        labs.add('profile_decades')
+    if np.any(d[:, 1] != 0.0):
+        labs.add('near_inplane_dy')
     edge = np.abs(np.diff(d[:, 0])).max() > 1e-9 * S['l']
     screw = np.abs(np.diff(d[:, 2])).max() > 1e-9 * S['l']
     if edge and screw:
@@ -1328,7 +1601,7 @@ def apply_settings(pn, cur, chg, H=None):
         elif k == 'alpha':
             pn.alpha = 0.0 if v is None else v
         elif k == 'cutoff':
-            v = 1000.0 if v is None else v
+            v = _default_cutoff() if v is None else v
             pn.cutofflongrange = v
         else:
             setattr(pn, k, bool(v))
@@ -1421,6 +1694,9 @@ def form_labels(labels, H, fx, fd):
         labels.add('forms')
     if 'int' in H.used:
         labels.add('int_typed')
+    labels.update(t for t in H.used if t.startswith('narrow'))
+    if G.is_narrow(fx) or G.is_narrow(fd):
+        labels.add('forms_narrow')
 
 
 def check_stored(pn, x, d, via, tag=''):
@@ -1467,7 +1743,7 @@ def run_history(case, S, pn, st_, x, d, labels, judge, nmax=200):
     prev, xprev = dict(base), x
     cur = dict(st_)
     if cur['cutoff'] is None:
-        cur['cutoff'] = 1000.0
+        cur['cutoff'] = _default_cutoff()
     moved = False
     for num, step in enumerate(case.get('hist') or []):
         p = step_profile(step, base, prev, nmax)
@@ -1512,6 +1788,13 @@ def judge_terms(pn, S, K, st_, x, d, a, kw, labels):
         ex, er = pn_ref.density(x, d, cd)
         _cmp(nx_, ex, 0.0, 'disldensity(cdiff=%r) x positions' % cd)
         _cmp(rho, er, 1e-13 * (np.abs(d).max() + 1e-300) / dx * 4, 'disldensity(cdiff=%r)' % cd)
+        # ... and every row relative to ITS OWN magnitude (rows may span many decades in one call)
+        lo_, hi_ = (d[:-2], d[2:]) if cd else (d[:-1], d[1:])
+        rowtol = 8 * EPS * (np.abs(lo_) + np.abs(hi_)) / (dx * (2 if cd else 1)) * (1 + 1e-6) + 1e-300
+        bad = np.abs(np.asarray(rho, dtype=float) - er) > rowtol
+        require(not bad.any(), lambda: 'disldensity(cdiff=%r): row %d is %r, (d[i+1]-d[i-1])/(x[i+1]-x[i-1]) resp. (d[i]-d[i-1])/(x[i]-x[i-1]) = %r '
+                '(judged relative to the magnitude of that row: tol %r)' % (cd, int(np.argwhere(bad)[0][0]), np.asarray(rho)[np.argwhere(bad)[0][0]].tolist(),
+                                                                             er[np.argwhere(bad)[0][0]].tolist(), rowtol[np.argwhere(bad)[0][0]].tolist()))
     # elastic
     e_el = pn.elastic_energy(*a, **kw)
     exp, sc = pn_ref.elastic(x, d, K, st_['cdiffelastic'])
@@ -1521,7 +1804,7 @@ def judge_terms(pn, S, K, st_, x, d, a, kw, labels):
         _close(e_el, exp2, sc, 'elastic_energy vs scalar double loop')
         labels.add('scalar_loop')
     # long range
-    L = 1000.0 if st_['cutoff'] is None else st_['cutoff']
+    L = _default_cutoff() if st_['cutoff'] is None else st_['cutoff']
     exp, scl = pn_ref.longrange(K.tolist(), S['b'].tolist(), L)
     _close(pn.longrange_energy(), exp, scl, 'longrange_energy(cutoff %g)' % L, extra=1e-7 * scl)   # burgers carries a 1e-8 clean-up
     # surface
@@ -1625,7 +1908,7 @@ def blocked_multi(S):
 def my_total(S, st_, x, d, K, mr=None):
     """independent total energy: (value, lowest, highest admissible value (seam band of the misfit term), absscale)"""
     tau, al = st_['tau'], alphas_of(st_)
-    L = 1000.0 if st_['cutoff'] is None else st_['cutoff']
+    L = _default_cutoff() if st_['cutoff'] is None else st_['cutoff']
     mr = misfit_reference(S, x, d) if mr is None else mr
     parts = [(mr[0], mr[3]), pn_ref.elastic(x, d, K, st_['cdiffelastic']), pn_ref.longrange(K.tolist(), S['b'].tolist(), L),
              pn_ref.stress_full(x, d, tau, st_['cdiffstress']) if st_['fullstress'] else pn_ref.stress_alt(x, d, tau),
@@ -1663,7 +1946,7 @@ def judge_total(pn, S, K, st_, x, d, a, kw, labels):
     _close(tot, ssum, sabs, 'total_energy vs misfit+elastic+longrange+stress+nonlocal+surface = %r' % (parts,), rel=1e-12)
     # and against my own evaluation of every formula
     mine, mlo, mhi, msc = my_total(S, st_, x, d, K, mr=(exp, lo, hi, sc, uv))
-    L = 1000.0 if st_['cutoff'] is None else st_['cutoff']
+    L = _default_cutoff() if st_['cutoff'] is None else st_['cutoff']
     tolt = tolm + 1e-10 * msc + 1e-7 * pn_ref.longrange(K.tolist(), S['b'].tolist(), L)[1]
     require(math.isfinite(float(tot)) and mlo - tolt <= float(tot) <= mhi + tolt,
             lambda: 'total_energy (N=%d) = %.17g, independent evaluation of the six documented formulas = %.17g '
@@ -1771,7 +2054,7 @@ def oracle_solve(case):
     labels.add('m_' + case['method'])
     tb = st_.get('tbform') or 'arr'
     real = dict(tau=H(st_['tau'], 'tau', form=tb), alpha=0.0 if st_['alpha'] is None else st_['alpha'], beta=H(st_['beta'], 'beta', form=tb),
-                cutofflongrange=1000.0 if st_['cutoff'] is None else st_['cutoff'], fullstress=st_['fullstress'],
+                cutofflongrange=_default_cutoff() if st_['cutoff'] is None else st_['cutoff'], fullstress=st_['fullstress'],
                 cdiffelastic=st_['cdiffelastic'], cdiffsurface=st_['cdiffsurface'], cdiffstress=st_['cdiffstress'])
     if sv == 'setters':
         for k_, v_ in real.items():
@@ -1924,7 +2207,7 @@ def _hw_energy(pn, b_vec, xi, L, dx, am):
 
 def oracle_halfwidth(case):
     import atomman as am
-    l, e = G.pow10(case.get('lk')), G.pow10(case.get('ej'))
+    l, e = _scales(case.get('lk'), case.get('ej'))
     ke = e / l
     b = case['b'] * l
     fr = case['frame']
@@ -1967,19 +2250,41 @@ def oracle_halfwidth(case):
 
 def oracle_arctan(case):
     import atomman as am
-    l = G.pow10(case.get('lk'))
+    l = _scales(case.get('lk'))[0]
     n, step = case['n'], case['step'] * l
     xmax = step * (n - 1) / 2.0
     mode = case['xmode']
     al = case['aslist']
+    labels = {'x_' + mode, 'b_' + case['bkind']} | scale_labels(case.get('lk'))
+    H = _Hand('arr')
+    xf = case.get('xform') or 'arr'
+    c, w = case['center'] * l, case['w'] * l
+    uniform = True
     if mode == 'x':
         xs = case['x0'] * l + step * np.arange(n)
-        kwx = {'x': xs}
+        if case.get('xdec') is not None:
+            # many decades in one call: x = center + s * halfwidth * 10^e, e in [-6, 6], both signs, ascending
+            rng = np.random.default_rng(case['xdec'])
+            m_ = max(n, 8)
+            xs = np.unique(c + rng.choice([-1.0, 1.0], m_) * w * 10.0 ** rng.uniform(-6.0, 6.0, m_))
+            n = len(xs)
+            uniform = False
+            labels.add('x_decades')
+        kwx = {'x': H(xs, 'x', form=xf)}
+        if xf != 'arr':
+            labels.add('xform_narrow' if G.is_narrow(xf) else 'xform_' + xf)
+        labels.update(t for t in H.used if t.startswith('narrow'))
+        if 'int' in H.used:
+            labels.add('int_typed')
     else:
+        if case.get('xnear') is not None and mode in ('xmax+xstep', 'all3'):
+            # near-threshold: xmax a relative 10^-k off xstep (xnum - 1) / 2
+            xmax = xmax * (1.0 + float(case.get('xnear_sign') or 1.0) * 10.0 ** (-case['xnear']))
+            labels.add('near_xmax')
         xs = np.linspace(-xmax, xmax, n)
         kwx = {'xmax+xstep': dict(xmax=xmax, xstep=step), 'xmax+xnum': dict(xmax=xmax, xnum=n),
                'xstep+xnum': dict(xstep=step, xnum=n), 'all3': dict(xmax=xmax, xstep=step, xnum=n)}[mode]
-    labels = {'x_' + mode, 'b_' + case['bkind']} | scale_labels(case.get('lk'))
+    xlisty = mode == 'x' and (xf in ('list', 'tuple', 'intlist') or G.is_narrow(xf))
     if case['bkind'] == 'vec':
         bv = np.array(case['b'], dtype=float) * l
         kwb = {'burgers': bv.tolist() if al else bv}
@@ -1989,11 +2294,24 @@ def oracle_arctan(case):
     else:
         bv = np.array([1.0, 0.0, 0.0])           # the documented default Burgers vector (not scaled)
         kwb = {}
-    c, w = case['center'] * l, case['w'] * l
     kw = dict(center=c, halfwidth=w)
     if c == 0.0 and w == 1.0:
         kw = {}
     norm, shift = case['normalize'], case['shift']
+    try:
+        return _arctan_judge(am, case, labels, H, xs, n, step, uniform, kwx, kwb, kw, bv, c, w, norm, shift, mode, xmax, l)
+    except TypeError as e:
+        if xlisty and 'unsupported operand' in str(e) and _tree_arcx_broken():
+            raise Violation('pn_arctan_disregistry / pn_arctan_disldensity with x given as %s (docstring: array-like) raised TypeError(%s)'
+                            % (xf, e), key=K_ARCX) from None
+        raise
+    except Violation as v:
+        if v.key is None and xlisty and _tree_arcx_broken():
+            raise Violation('x given as %s (exactly representable values): %s' % (xf, v.detail), key=K_ARCX) from None
+        raise
+
+
+def _arctan_judge(am, case, labels, H, xs, n, step, uniform, kwx, kwb, kw, bv, c, w, norm, shift, mode, xmax, l):
     rx, d = am.defect.pn_arctan_disregistry(**kwx, **kwb, **kw, normalize=norm, shift=shift)
     _cmp(rx, xs, 1e-12 * np.abs(xs).max(), 'x returned by pn_arctan_disregistry(%s)' % mode)
     raw = pn_ref.arctan_disregistry(xs, bv, c, w)
@@ -2013,9 +2331,15 @@ def oracle_arctan(case):
         _cmp(np.asarray(d)[-1] - np.asarray(d)[0], bv, 1e-12 * bn, 'end-to-end difference of the normalised disregistry vs the Burgers vector')
     rx2, rho = am.defect.pn_arctan_disldensity(**kwx, **kwb, **kw, normalize=norm)
     _cmp(rx2, xs, 1e-12 * np.abs(xs).max(), 'x returned by pn_arctan_disldensity')
-    _cmp(rho, pn_ref.arctan_density(xs, bv, c, w) * fac, 1e-12 * bn / w * fac, 'pn_arctan_disldensity(normalize=%r) vs b/pi xi/((x-c)^2+xi^2)' % norm)
+    rref = pn_ref.arctan_density(xs, bv, c, w) * fac
+    _cmp(rho, rref, 1e-12 * bn / w * fac, 'pn_arctan_disldensity(normalize=%r) vs b/pi xi/((x-c)^2+xi^2)' % norm)
+    # ... and every row relative to ITS OWN magnitude (the rows of one call may span many decades)
+    rbad = np.abs(np.asarray(rho, dtype=float) - rref) > 4e-12 * np.abs(rref) + 1e-300
+    require(not rbad.any(), lambda: 'pn_arctan_disldensity: row %d (x = %r) is %r, b/pi xi/((x-c)^2+xi^2) = %r (judged relative to the magnitude of that row)'
+            % (int(np.argwhere(rbad)[0][0]), xs[np.argwhere(rbad)[0][0]], np.asarray(rho)[np.argwhere(rbad)[0][0]].tolist(), rref[np.argwhere(rbad)[0][0]].tolist()))
+    H.verify(' [pn_arctan_disregistry / pn_arctan_disldensity]')
     # density is the derivative of the disregistry: central differences of the returned profile
-    if n >= 5 and step <= 0.25 * w:
+    if uniform and n >= 5 and step <= 0.25 * w:
         dd = np.asarray(d, dtype=float)
         num = (dd[2:] - dd[:-2]) / (xs[2:] - xs[:-2])[:, None]
         # |f'''| <= 2 b /(pi xi^3): truncation h^2/6 f'''
@@ -2034,8 +2358,713 @@ def oracle_arctan(case):
             # the test is np.isclose(dx, xstep) with numpy's absolute 1e-8 added to the relative 1e-5: open finding for
             # steps below 2e-8 working units (keyed only for scaled-down cases)
             raise Violation('pn_arctan_disregistry accepted incompatible xmax=%r, xstep=%r (= 1.5 x 2 xmax/(xnum-1)), xnum=%d'
-                            % (xmax, step * 1.5, n), key=K_ARCSTEP if (case.get('lk') or 0) <= -7 else None)
+                            % (xmax, step * 1.5, n), key=K_ARCSTEP if step <= 2e-7 else None)
     labels.add('nt')
+    return labels
+
+
+# ----------------------------------------------------------------------------- decades
+# Many decades in one call: the rows of ONE query array span 8-11 orders of magnitude; every conversion is judged row by
+# row against the same independent basis algebra as in clauses coords / coords_multi, each row relative to ITS OWN magnitude
+# (a whole-array normalisation, a clean-up of "small" entries relative to the largest one shows), and against the call with
+# that row alone; E_gsf / delta of the array equal E_gsf / delta of every row alone.
+
+def _rows(got, exp, rowtol, what, mags):
+    got = np.asarray(got, dtype=float)
+    exp = np.asarray(exp, dtype=float)
+    require(got.shape == exp.shape, lambda: '%s: shape %r, expected %r' % (what, got.shape, exp.shape))
+    require(bool(np.all(np.isfinite(got))), lambda: '%s: not finite: %r' % (what, got))
+    err = np.abs(got - exp)
+    if err.ndim == 2:
+        err = err.max(axis=1)
+    bad = err > rowtol
+    require(not bad.any(), lambda: '%s: row %d (magnitude %.3g) is %r, expected %r: off by %.3g, judged relative to the magnitude of that row '
+            '(tol %.3g); the rows of this call span magnitudes %.3g .. %.3g'
+            % (what, int(np.argwhere(bad)[0][0]), mags[np.argwhere(bad)[0][0]][0], got[np.argwhere(bad)[0][0]][0].tolist(),
+               exp[np.argwhere(bad)[0][0]][0].tolist(), err[bad][0], rowtol[bad][0], mags.min(), mags.max()))
+
+
+def oracle_decades(case):
+    s = case['surf']
+    g, info = build_surface(s)
+    labels = surface_labels(s, info)
+    A1, A2 = info['A1'], info['A2']
+    cond = gsf_ref.basis_cond(A1, A2)
+    L = max(np.linalg.norm(A1), np.linalg.norm(A2))
+    q = np.array(case['q'], dtype=float)
+    u, v = q[:, 0].copy(), q[:, 1].copy()
+    n = len(q)
+    mags = np.maximum(np.abs(u), np.abs(v))
+    sm = bool(case['smooth'])
+    form = case.get('form') or 'arr'
+    H = _Hand(form)
+    labels.update({'form_' + form, 'smooth' if sm else 'nearest', 'decades_%d' % int(round(math.log10(mags.max() / mags.min())))})
+    xv = None
+    if case['xv'] is not None:
+        xv = case['xv'][0] * A1 + case['xv'][1] * A2
+        labels.add('xvect')
+    kw_x = {} if xv is None else {'xvect': xv}
+    P = gsf_ref.frac_to_pos(u, v, A1, A2)
+    X, Y = gsf_ref.pos_to_xy(P, A1, A2, xv)
+    tp = 2e-14 * L * mags                    # positions, plotting coordinates of a row
+    tf = 2e-13 * cond * mags                 # fractional coordinates of a row
+    # --- the array calls, row by row
+    p = g.a12_to_pos(H(u, 'a1'), H(v, 'a2'))
+    _rows(p, P, tp, 'a12_to_pos(%d rows)' % n, mags)
+    x1, y1 = _shape_pair(g.pos_to_xy(H(P, 'pos'), **kw_x), n, 'pos_to_xy')
+    _rows(x1, X, 2 * tp, 'pos_to_xy x', mags); _rows(y1, Y, 2 * tp, 'pos_to_xy y', mags)
+    x2, y2 = _shape_pair(g.a12_to_xy(H(u, 'a1'), H(v, 'a2'), **kw_x), n, 'a12_to_xy')
+    _rows(x2, X, 3 * tp, 'a12_to_xy x', mags); _rows(y2, Y, 3 * tp, 'a12_to_xy y', mags)
+    p2 = g.xy_to_pos(H(X, 'x'), H(Y, 'y'), **kw_x)
+    _rows(p2, P, 4 * tp, 'xy_to_pos(%d rows)' % n, mags)
+    gu, gv = _shape_pair(g.pos_to_a12(H(P, 'pos')), n, 'pos_to_a12')
+    _rows(gu, u, tf, 'pos_to_a12 a1', mags); _rows(gv, v, tf, 'pos_to_a12 a2', mags)
+    hu, hv = _shape_pair(g.xy_to_a12(H(X, 'x'), H(Y, 'y'), **kw_x), n, 'xy_to_a12')
+    _rows(hu, u, 2 * tf, 'xy_to_a12 a1', mags); _rows(hv, v, 2 * tf, 'xy_to_a12 a2', mags)
+    H.verify(' [conversions of an array whose rows span many decades]')
+    # --- every row alone gives the row of the array call
+    for i in range(n):
+        m1 = mags[i:i + 1]
+        _rows(np.asarray(g.a12_to_pos(float(u[i]), float(v[i]))).reshape(1, 3), np.asarray(p)[i:i + 1], tp[i:i + 1], 'a12_to_pos(row %d alone) vs its row of the array call' % i, m1)
+        r = g.pos_to_a12(P[i])
+        _rows([float(r[0])], [float(np.asarray(gu)[i])], tf[i:i + 1], 'pos_to_a12(row %d alone) a1 vs its row of the array call' % i, m1)
+        _rows([float(r[1])], [float(np.asarray(gv)[i])], tf[i:i + 1], 'pos_to_a12(row %d alone) a2 vs its row of the array call' % i, m1)
+        r = g.pos_to_xy(P[i], **kw_x)
+        _rows([float(r[0])], [float(np.asarray(x1)[i])], 2 * tp[i:i + 1], 'pos_to_xy(row %d alone) x vs its row of the array call' % i, m1)
+        _rows([float(r[1])], [float(np.asarray(y1)[i])], 2 * tp[i:i + 1], 'pos_to_xy(row %d alone) y vs its row of the array call' % i, m1)
+        r = g.xy_to_a12(float(X[i]), float(Y[i]), **kw_x)
+        _rows([float(np.asarray(r[0]).reshape(()))], [float(np.asarray(hu)[i])], 2 * tf[i:i + 1], 'xy_to_a12(row %d alone) a1 vs its row of the array call' % i, m1)
+    # --- energies / plane separations: the array call equals the single-row calls; the three ways of giving the rows agree
+    fns = [('E_gsf', g.E_gsf, info['Erange'])]
+    if info['D'] is not None:
+        fns.append(('delta', g.delta, info['Drange']))
+    ok = np.ones(n, dtype=bool)
+    if not sm:
+        ok = np.array([not (gsf_ref.nearest_index(a, info['n1'], 1e-7)[1] or gsf_ref.nearest_index(b, info['n2'], 1e-7)[1]) for a, b in zip(u, v)])
+        if not ok.all():
+            labels.add('tie_exempt')
+    for name, fn, rng in fns:
+        seam = bool(s['dup']) or name == 'delta'
+        ea = np.asarray(fn(a1=H(u, 'a1'), a2=H(v, 'a2'), smooth=sm), dtype=float)
+        require(ea.shape == (n,), lambda: '%s(a1=, a2=) returned shape %r for %d rows' % (name, ea.shape, n))
+        e1 = np.array([float(fn(a1=float(a), a2=float(b), smooth=sm)) for a, b in zip(u, v)])
+        _cmp(ea[ok], e1[ok], 1e-11 * rng, '%s(a1=, a2=, smooth=%r) of an array whose rows span many decades vs every row alone' % (name, sm))
+        base, lo, hi, hit = eval_band(fn, u, v, sm, seam)
+        ep = np.asarray(fn(pos=H(P, 'pos'), smooth=sm), dtype=float)
+        _in_band(ep[ok], lo[ok], hi[ok], 1e-8 * rng * cond, '%s(pos=(%d,3) array, smooth=%r) vs %s(a1=, a2=)' % (name, n, sm, name))
+        ep1 = np.array([float(fn(pos=P[i], smooth=sm)) for i in range(n)])
+        _in_band(ep1[ok], lo[ok], hi[ok], 1e-8 * rng * cond, '%s(pos= one row alone, smooth=%r) vs %s(a1=, a2=)' % (name, sm, name))
+        # (a row exactly on an integer line of a surface without blending may land on either side, see eval_band)
+        off = ok & ~np.array([sm and seam and (_near_int(a) or _near_int(b)) for a, b in zip(u, v)])
+        _cmp(ep[off], ep1[off], 1e-10 * rng * cond, '%s(pos=, smooth=%r) of the array vs every row alone' % (name, sm))
+        exy = np.asarray(fn(x=H(X, 'x'), y=H(Y, 'y'), smooth=sm, **kw_x), dtype=float)
+        _in_band(exy[ok], lo[ok], hi[ok], 1e-8 * rng * cond, '%s(x=, y=, smooth=%r) vs %s(a1=, a2=)' % (name, sm, name))
+    H.verify(' [E_gsf / delta]')
+    labels.add('nt')
+    return labels
+
+
+# ----------------------------------------------------------------------------- result ledger / caller-side mutation: surfaces
+# A GammaSurface is a value: nothing the caller does afterwards with the arrays and the Box it handed over (overwriting them
+# in place, re-defining the Box through its setters, building other surfaces from them), nothing that is done with this or
+# with another surface, and nothing the caller does to the arrays it got back changes (a) any array / text the surface has
+# returned (kept in a ledger and compared bit for bit) or (b) any answer of the surface (read again after every
+# operation); and no call changes the caller's objects.  The first and the last reading are judged as in clause interp.
+
+def overwrite(obj, new):
+    """the caller overwrites its own array / list in place; False when the object is immutable (tuple, read-only array)"""
+    if isinstance(obj, np.ndarray):
+        if not obj.flags.writeable:
+            return False
+        with np.errstate(all='ignore'):
+            obj[...] = new
+        return True
+    if isinstance(obj, list):
+        new = np.asarray(new).tolist()
+        for i, t in enumerate(new):
+            if isinstance(obj[i], list):
+                obj[i][:] = t
+            else:
+                obj[i] = t
+        return True
+    return False
+
+
+def redefine_box(box, how, f, V):
+    f = 1.5 * abs(float(f))
+    W = f * np.roll(V, 1, axis=1)[[1, 2, 0]]                 # another right-handed cell
+    a = f * float(np.linalg.norm(V[0]))
+    if how == 'vects':
+        box.vects = W
+    elif how == 'set_vectors':
+        box.set_vectors(avect=W[0], bvect=W[1], cvect=W[2])
+    elif how == 'set_abc':
+        box.set_abc(a=1.1 * a, b=1.3 * a, c=0.9 * a, alpha=80.0, beta=95.0, gamma=107.0)
+    elif how == 'set_lengths':
+        box.set_lengths(lx=1.1 * a, ly=1.3 * a, lz=0.9 * a, xy=0.2 * a, xz=-0.1 * a, yz=0.3 * a)
+    elif how == 'origin':
+        box.origin = [1.5 * a, -2.0 * a, 0.25 * a]
+    else:
+        raise KeyError(how)
+
+
+def _flat(raw):
+    """the arrays / scalars / texts of a returned object, in order"""
+    if isinstance(raw, (tuple, list)):
+        return list(raw)
+    return [raw]
+
+
+def _copy_of(raw):
+    return [t if isinstance(t, str) else np.array(t).copy() for t in _flat(raw)]
+
+
+def _fresh(cop):
+    return [t if isinstance(t, str) else t.copy() for t in cop]
+
+
+def _same_bits(a, b):
+    if isinstance(a, str) or isinstance(b, str):
+        return a == b
+    a, b = np.asarray(a), np.asarray(b)
+    return a.shape == b.shape and a.dtype == b.dtype and bool(np.array_equal(a, b, equal_nan=True))
+
+
+GSF_STATE = ('a1vect', 'a2vect', 'planenormal', 'boxvects', 'data')      # what the class hands out as its state
+
+
+def gsf_read(g, Q, has_delta, seed):
+    """every answer of surface g for the query set Q, read in an order fixed by seed: {name: (object returned, copies)}"""
+    names = ['E_smooth', 'E_nearest', 'pos', 'xy', 'a12', 'xy2pos', 'xy2a12', 'a12xy', 'E_pos', 'E_xy', 'model'] + list(GSF_STATE)
+    if has_delta:
+        names += ['D_smooth', 'D_nearest', 'D_pos']
+    out = {}
+    for i in np.random.default_rng(seed).permutation(len(names)):
+        nm = names[int(i)]
+        u, v, P, X, Y = Q['u'], Q['v'], Q['P'], Q['X'], Q['Y']
+        if nm == 'E_smooth':
+            raw = g.E_gsf(a1=u, a2=v, smooth=True)
+        elif nm == 'E_nearest':
+            raw = g.E_gsf(a1=u, a2=v, smooth=False)
+        elif nm == 'D_smooth':
+            raw = g.delta(a1=u, a2=v, smooth=True)
+        elif nm == 'D_nearest':
+            raw = g.delta(a1=u, a2=v, smooth=False)
+        elif nm == 'pos':
+            raw = g.a12_to_pos(u, v)
+        elif nm == 'xy':
+            raw = g.pos_to_xy(P)
+        elif nm == 'a12':
+            raw = g.pos_to_a12(P)
+        elif nm == 'xy2pos':
+            raw = g.xy_to_pos(X, Y)
+        elif nm == 'xy2a12':
+            raw = g.xy_to_a12(X, Y)
+        elif nm == 'a12xy':
+            raw = g.a12_to_xy(u, v)
+        elif nm == 'E_pos':
+            raw = g.E_gsf(pos=P)
+        elif nm == 'D_pos':
+            raw = g.delta(pos=P, smooth=False)
+        elif nm == 'E_xy':
+            raw = g.E_gsf(x=X, y=Y, smooth=False)
+        elif nm == 'model':
+            raw = g.model().json()
+        elif nm == 'boxvects':
+            raw = (g.box.vects, g.box.origin)
+        elif nm == 'data':
+            raw = g.data.to_numpy(dtype=float)
+        else:
+            raw = getattr(g, nm)
+        out[nm] = (raw, _copy_of(raw))
+    return out
+
+
+def same_answers(base, now, what):
+    for nm in sorted(base):
+        for k, (a, b) in enumerate(zip(base[nm][1], now[nm][1])):
+            if isinstance(a, str):
+                require(a == b, lambda: '%s: %s changed:\nbefore %s\nnow    %s' % (what, nm, a[:400], b[:400]))
+                continue
+            require(a.shape == b.shape, lambda: '%s: %s changed shape %r -> %r' % (what, nm, a.shape, b.shape))
+            sc = float(np.abs(a).max()) if a.size else 0.0
+            dd = float(np.abs(a - b).max()) if a.size else 0.0
+            require(dd <= 1e-13 * sc and bool(np.all(np.isfinite(b))), lambda: '%s: answer %s%s of the surface changed by %.3g (relative %.3g)\nbefore\n%r\nnow\n%r'
+                    % (what, nm, '[%d]' % k if len(base[nm][1]) > 1 else '', dd, dd / sc if sc else float('inf'), a, b))
+
+
+def ledger_intact(ledger, what):
+    """everything that has been returned so far still holds the bits it was returned with"""
+    for tag, nm, raw, cop in ledger:
+        for k, (a, b) in enumerate(zip(_flat(raw), cop)):
+            require(_same_bits(a, b), lambda: '%s: the %s returned earlier by %s (%s) has changed although the caller did not touch it:\nreturned\n%r\nnow\n%r'
+                    % (what, type(a).__name__, nm, tag, b, a))
+
+
+def oracle_ledger(case):
+    import atomman as am
+    s, s2 = case['surf'], case['surf2']
+    kw1, info = surface_args(s)
+    labels = surface_labels(s, info)
+    H = _Hand('arr')
+    held = {}
+    forms = dict(case['forms'])
+    for k in ('a1vect', 'a2vect', 'a1', 'a2', 'E_gsf', 'delta'):
+        if k in ('a1', 'a2', 'E_gsf', 'delta') and forms[k] == 'nd:>f8':
+            # the data go into a pandas.DataFrame (the documented .data attribute), and pandas documents that it needs
+            # native byte order ("Big-endian buffer not supported on little-endian compiler" as soon as rows are selected)
+            forms[k] = 'nd:f4'
+        if kw1[k] is not None:
+            held[k] = H(np.array(kw1[k], dtype=float), k, form=forms[k])
+            labels.add('held_' + ('narrow' if G.is_narrow(forms[k]) else forms[k]))
+    box = kw1['box']
+    V0, o0 = (None, None) if box is None else (np.array(box.vects).copy(), np.array(box.origin).copy())
+    if case['via_set']:
+        g = am.defect.GammaSurface()
+        g.set(held['a1vect'], held['a2vect'], held['a1'], held['a2'], held['E_gsf'], box=box, delta=held.get('delta'))
+        labels.add('via_set')
+    else:
+        g = am.defect.GammaSurface(box=box, **held)
+    g2, info2 = build_surface(s2)
+    has_delta = info['D'] is not None
+    # the caller's query arrays (own references: in-plane positions, plotting coordinates)
+    q = np.array(case['q'], dtype=float)
+    Q = {'u': q[:, 0].copy(), 'v': q[:, 1].copy()}
+    Q['P'] = gsf_ref.frac_to_pos(Q['u'], Q['v'], info['A1'], info['A2'])
+    Q['X'], Q['Y'] = gsf_ref.pos_to_xy(Q['P'], info['A1'], info['A2'], None)
+    Q0 = {k: t.copy() for k, t in Q.items()}
+    icase = {'aslist': False, 'probe': case['order']}
+    _interp_checks(g, s, info, icase, labels)
+    base = gsf_read(g, Q, has_delta, case['order'])
+    ledger = [('first reading', nm, raw, cop) for nm, (raw, cop) in sorted(base.items()) if nm not in GSF_STATE]
+    H.verify(' [building and querying the surface]')
+    for k, t in Q.items():
+        require(np.array_equal(t, Q0[k]), lambda: 'the caller\'s query array %s was changed by the calls' % k)
+    same_answers(base, gsf_read(g, Q, has_delta, case['order'] + 1), 'reading the answers a second time, in another order')
+    pending = None
+    dirty = set()
+
+    def resnap(obj):
+        H.kept = [(w_, o_, (o_.copy() if isinstance(o_, np.ndarray) else o_), np.asarray(o_, dtype=float).copy()) if o_ is obj else (w_, o_, sn_, a_)
+                  for (w_, o_, sn_, a_) in H.kept]
+
+    def box_state():
+        return None if box is None else (np.array(box.vects).copy(), np.array(box.origin).copy())
+
+    for num, op in enumerate(case['ops']):
+        kind = op['op']
+        what = 'operation %d (%s)' % (num, kind)
+        labels.add('op_' + kind)
+        snap_box = box_state()
+        touched = None               # (restore function, key, sharing test) of a caller-side mutation
+        if kind == 'call_same':
+            w = np.array(op['q'], dtype=float) + 1.0
+            for sm in (bool(op['smooth']), not op['smooth']):
+                r = g.E_gsf(a1=w[:, 0], a2=w[:, 1], smooth=sm)
+                ledger.append((what, 'E_gsf(a1=, a2=, smooth=%r)' % sm, r, _copy_of(r)))
+            Pw = gsf_ref.frac_to_pos(w[:, 0], w[:, 1], info['A1'], info['A2'])
+            for nm, r in (('pos_to_a12', g.pos_to_a12(Pw)), ('pos_to_xy', g.pos_to_xy(Pw)), ('E_gsf(pos=)', g.E_gsf(pos=Pw)), ('a12_to_pos', g.a12_to_pos(w[:, 0], w[:, 1]))):
+                ledger.append((what, nm, r, _copy_of(r)))
+        elif kind == 'call_other':
+            w = np.array(op['q'], dtype=float)
+            Pw = gsf_ref.frac_to_pos(w[:, 0], w[:, 1], info2['A1'], info2['A2'])
+            for nm, r in (('other.E_gsf', g2.E_gsf(a1=w[:, 0], a2=w[:, 1], smooth=bool(op['smooth']))), ('other.pos_to_a12', g2.pos_to_a12(Pw)),
+                          ('other.pos_to_xy', g2.pos_to_xy(Pw)), ('other.E_gsf(pos=)', g2.E_gsf(pos=Pw, smooth=bool(op['smooth'])))):
+                ledger.append((what, nm, r, _copy_of(r)))
+        elif kind == 'build_other':
+            if dirty & {'a1', 'a2'}:
+                labels.add('op_skipped')
+                continue
+            # another surface from the arrays / the Box the caller still holds (whatever they contain by now)
+            g3 = am.defect.GammaSurface(box=box, **held)
+            r = g3.E_gsf(a1=Q['u'], a2=Q['v'])
+            ledger.append((what, 'new.E_gsf', r, _copy_of(r)))
+            what += ': another surface built from the caller\'s arrays%s' % ('' if box is None else ' and Box')
+        elif kind == 'reload_other':
+            reload_surface(g2, s, op['route'])
+            info2 = dict(info)
+            what += ': the data loaded into another object by %s' % op['route']
+        elif kind == 'overwrite_in':
+            key = op['which'] if op['which'] in held else 'E_gsf'
+            obj = held[key]
+            old = np.array(obj, dtype=float).copy()
+            if key == 'a1vect':
+                new = op['f'] * old + 0.5 * np.array(held['a2vect'], dtype=float)
+            elif key == 'a2vect':
+                new = op['f'] * old + 0.5 * np.array(held['a1vect'], dtype=float)
+            elif key in ('a1', 'a2'):
+                new = 0.5 * old
+            else:
+                new = op['f'] * old[::-1]
+            if isinstance(obj, np.ndarray) and obj.dtype.kind in 'iu':
+                new = np.rint(np.abs(new))
+            if not overwrite(obj, new):
+                labels.add('op_on_immutable')
+                continue
+            labels.add('overwrote_' + key)
+            dirty.add(key)
+            resnap(obj)
+            what += ': the caller overwrote, in place, the %s it had handed to the surface as %s' % (key, forms[key])
+            if key in ('a1vect', 'a2vect') and isinstance(obj, np.ndarray):
+                touched = (lambda obj=obj, old=old, key=key: (overwrite(obj, old), resnap(obj), dirty.discard(key)),
+                           K_ALIASV, lambda obj=obj: np.shares_memory(obj, g.a1vect) or np.shares_memory(obj, g.a2vect))
+        elif kind == 'box':
+            if box is None:
+                labels.add('op_without_object')
+                continue
+            redefine_box(box, op['how'], op['f'], V0)
+            labels.add('box_via_' + op['how'])
+            what += ': the caller re-defined the Box it had handed to the surface (%s)' % op['how']
+
+            def put_back(sb=snap_box):
+                box.vects = sb[0]
+                box.origin = sb[1]
+            touched = (put_back, K_ALIASBOX, lambda: g.box is box)
+        elif kind == 'overwrite_out':
+            for nm in sorted(base):
+                if nm in GSF_STATE:
+                    continue
+                for t in _flat(base[nm][0]):
+                    if isinstance(t, np.ndarray) and t.flags.writeable and t.ndim:
+                        t[...] = -7.5
+            base = {nm: (_fresh(v[1]) if nm not in GSF_STATE else v[0], v[1]) for nm, v in base.items()}
+            ledger = [(tag, nm, _fresh(cop), cop) if tag == 'first reading' else (tag, nm, raw, cop) for (tag, nm, raw, cop) in ledger]
+            what += ': the caller overwrote the arrays the surface had returned'
+        elif kind == 'overwrite_query':
+            for k, t in Q.items():
+                t[...] = op['f'] * t[::-1] + 0.125
+            ledger_intact(ledger, 'after ' + what + ': the caller overwrote the query arrays it had handed to the surface')
+            for k, t in Q.items():
+                t[...] = Q0[k]
+            what += ': the caller overwrote (and put back) its query arrays'
+        else:
+            raise KeyError(kind)
+        # (a) nothing returned so far has changed, (b) no answer has moved, (c) the caller's objects are as the caller left them
+        try:
+            ledger_intact(ledger, 'after ' + what)
+            try:
+                now = gsf_read(g, Q, has_delta, case['order'] + 2 + num)
+            except (AssertionError, ValueError, np.linalg.LinAlgError) as e:
+                raise Violation('after %s: the surface no longer answers for its own in-plane positions / plotting axis: %s(%s)' % (what, type(e).__name__, e))
+            same_answers(base, now, 'after ' + what)
+        except Violation as e:
+            if touched is not None and touched[2]():
+                # unchanged tree: the surface keeps the caller's object itself (open finding): reported at the end of the case,
+                # the caller's object is put back so that the rest of the history is judged
+                pending = pending or Violation(e.detail, key=touched[1])
+                touched[0]()
+                labels.add('alias_' + ('box' if touched[1] == K_ALIASBOX else 'vect'))
+                now = gsf_read(g, Q, has_delta, case['order'] + 2 + num)
+                same_answers(base, now, 'after ' + what + ' and after the caller put the object back')
+            else:
+                raise
+        H.verify(' [after %s]' % what)
+        if box is not None and kind != 'box':
+            nb = box_state()
+            require(np.array_equal(nb[0], snap_box[0]) and np.array_equal(nb[1], snap_box[1]), lambda: 'after %s: the caller\'s Box was changed' % what)
+        for k, t in Q.items():
+            require(np.array_equal(t, Q0[k]), lambda: 'after %s: the caller\'s query array %s was changed' % (what, k))
+    # the surface still is the surface it was built as
+    _interp_checks(g, s, info, icase, set(), ' [after the history]')
+    if dirty:
+        labels.add('nt')
+    if len(ledger) > len(base):
+        labels.add('ledger_grew')
+    if pending is not None:
+        raise pending
+    return labels
+
+
+# ----------------------------------------------------------------------------- result ledger / caller-side mutation: SDVPN
+# The same for an SDVPN object: the arrays x / disregistry / tau / beta the caller handed over (constructor, setters,
+# arguments) and the arrays disldensity() handed back are overwritten in place, another SDVPN on the same gamma surface is
+# evaluated, re-set and solved; every energy of the first object is read again after every operation and every returned
+# array is kept in the ledger.  The first reading is judged as in clause pn_total.
+
+PN_STATE = ('x', 'disregistry', 'tau', 'beta', 'K_tensor', 'burgers', 'transform')
+
+
+def pn_read(pn, args, stored, seed):
+    names = ['misfit', 'elastic', 'longrange', 'stress', 'surface', 'nonlocal', 'total', 'density', 'density_c', 'tau', 'beta', 'K_tensor',
+             'burgers', 'transform', 'scalars']
+    if stored:
+        names += ['x', 'disregistry']
+    out = {}
+    for i in np.random.default_rng(seed).permutation(len(names)):
+        nm = names[int(i)]
+        if nm == 'density':
+            raw = pn.disldensity(*args)
+        elif nm == 'density_c':
+            raw = pn.disldensity(*args, cdiff=True)
+        elif nm == 'longrange':
+            raw = float(pn.longrange_energy())
+        elif nm in ('misfit', 'elastic', 'stress', 'surface', 'nonlocal', 'total'):
+            raw = float(getattr(pn, nm + '_energy')(*args))
+        elif nm == 'scalars':
+            raw = np.array([float(t) for t in pn.alpha] + [float(pn.cutofflongrange)] + [float(bool(getattr(pn, f))) for f in G.FLAGS])
+        else:
+            raw = getattr(pn, nm)
+        out[nm] = (raw, _copy_of(raw))
+    return out
+
+
+def oracle_ledger_pn(case):
+    import atomman as am
+    S = build_pn_system(case['sys'])
+    blocked_multi(S)
+    st_ = scale_settings(case['set'], S)
+    x, d = build_profile(case['prof'], S['b'], S['l'])
+    if len(x) <= 2 * len(alphas_of(st_)):
+        st_['alpha'] = None
+    labels = pn_labels(case, S, d)
+    H = _Hand('arr')
+    hf = case['held']
+    held = {'x': H(x, 'x', form=hf['x']), 'disregistry': H(d, 'disregistry', form=hf['disregistry']),
+            'tau': H(st_['tau'], 'tau', form=hf['tau']), 'beta': H(st_['beta'], 'beta', form=hf['beta'])}
+    orig = {k: np.array(t, dtype=float).copy() for k, t in held.items()}
+    for k in held:
+        labels.add('held_' + ('narrow' if G.is_narrow(hf[k]) else hf[k]))
+
+    def resnap(obj):
+        H.kept = [(w_, o_, (o_.copy() if isinstance(o_, np.ndarray) else o_), np.asarray(o_, dtype=float).copy()) if o_ is obj else (w_, o_, sn_, a_)
+                  for (w_, o_, sn_, a_) in H.kept]
+
+    kw = dict(tau=held['tau'], beta=held['beta'], fullstress=st_['fullstress'], cdiffelastic=st_['cdiffelastic'],
+              cdiffsurface=st_['cdiffsurface'], cdiffstress=st_['cdiffstress'])
+    if st_['alpha'] is not None:
+        kw['alpha'] = st_['alpha']
+    if st_['cutoff'] is not None:
+        kw['cutofflongrange'] = st_['cutoff']
+    pn = am.defect.SDVPN(volterra=S['vol'], gamma=S['gamma'], **kw)
+    stored = bool(case['stored'])
+    if stored:
+        pn.x = held['x']
+        pn.disregistry = held['disregistry']
+        args = ()
+        labels.add('stored')
+    else:
+        args = (held['x'], held['disregistry'])
+    K = np.asarray(pn.K_tensor, dtype=float).copy()
+    judge_total(pn, S, K, st_, x, d, args, {}, labels)
+    # a second object on the same gamma surface, given the SAME tau / beta arrays
+    x2, d2 = build_profile(case['prof2'], S['b'], S['l'])
+    pn2 = am.defect.SDVPN(volterra=S['vol'], gamma=S['gamma'], **kw)
+    pn2.x = x2.copy()
+    pn2.disregistry = d2.copy()
+    base = pn_read(pn, args, stored, 7)
+    ledger = [('first reading', nm, raw, cop) for nm, (raw, cop) in sorted(base.items()) if nm not in PN_STATE]
+    H.verify(' [building and evaluating the object]')
+    same_answers(base, pn_read(pn, args, stored, 8), 'reading the energies a second time, in another order')
+    pending = None
+    last_args = None
+
+    def shares(obj):
+        cands = [pn.tau, pn.beta] + ([pn.x, pn.disregistry] if stored else [])
+        return isinstance(obj, np.ndarray) and any(np.shares_memory(obj, t) for t in cands)
+
+    for num, op in enumerate(case['ops']):
+        kind = op['op']
+        what = 'operation %d (%s)' % (num, kind)
+        labels.add('op_' + kind)
+        restore = None
+        if kind == 'eval_same':
+            xs, ds = build_profile(op['prof'], S['b'], S['l'])
+            last_args = (xs, ds, xs.copy(), ds.copy())
+            for nm, r in (('total_energy(x, d)', float(pn.total_energy(xs, ds))), ('disldensity(x, d)', pn.disldensity(xs, ds, cdiff=bool(op['cdiff'])))):
+                ledger.append((what, nm, r, _copy_of(r)))
+        elif kind == 'eval_other_obj':
+            for nm, r in (('other.total_energy()', float(pn2.total_energy())), ('other.disldensity()', pn2.disldensity(cdiff=bool(op['cdiff'])))):
+                ledger.append((what, nm, r, _copy_of(r)))
+        elif kind == 'solve_other_obj':
+            pn2.solve(min_method='Nelder-Mead', min_options={'maxiter': 3})
+            r = pn2.disregistry
+            ledger.append((what, 'other.disregistry after solve', r, _copy_of(r)))
+        elif kind == 'setters_other_obj':
+            xs, ds = build_profile(op['prof'], S['b'], S['l'])
+            pn2.x, pn2.disregistry = xs, ds
+            pn2.tau = op['f'] * np.array(st_['tau'])
+            pn2.beta = abs(op['f']) * np.array(st_['beta'])
+            pn2.alpha = [0.01 * S['ke'] / S['l']]
+            pn2.cutofflongrange = 77.0 * S['l']
+            for f in G.FLAGS:
+                setattr(pn2, f, not getattr(pn2, f))
+        elif kind == 'overwrite_in':
+            key = op['which']
+            obj = held[key]
+            old = np.array(obj, dtype=float).copy()
+            new = (abs(op['f']) * old + S['l']) if key == 'x' else op['f'] * old[::-1]
+            if key in ('tau', 'beta'):
+                new = op['f'] * old.T[::-1] + 0.001 * S['ke'] * (S['l'] if key == 'beta' else 1.0)
+                new = 0.5 * (new + new.T)
+            if key == 'disregistry':
+                new[:, 1] = 0.0
+            if not overwrite(obj, new):
+                labels.add('op_on_immutable')
+                continue
+            resnap(obj)
+            labels.add('overwrote_' + key)
+            what += ': the caller overwrote, in place, the %s it had handed to the object as %s (%s)' % (
+                key, hf[key], 'through the setter' if (stored or key in ('tau', 'beta')) else 'as an argument')
+
+            def restore(obj=obj, old=old):
+                overwrite(obj, old)
+                resnap(obj)
+            if not (stored or key in ('tau', 'beta')):
+                # an argument of the energy methods: the caller puts the values back before it asks again (what was
+                # returned for them must not have followed)
+                ledger_bad = None
+                try:
+                    ledger_intact(ledger, 'after ' + what)
+                except Violation as e:
+                    ledger_bad = e
+                restore()
+                if ledger_bad is not None:
+                    if _tree_pnshare_broken():
+                        pending = pending or Violation(ledger_bad.detail, key=K_PNSHARE)
+                        ledger = [(tag, nm, raw, _copy_of(raw)) for (tag, nm, raw, cop) in ledger]
+                        labels.add('alias_view')
+                    else:
+                        raise ledger_bad
+                restore = None
+        elif kind == 'overwrite_out':
+            for nm in ('density', 'density_c'):
+                for t in _flat(base[nm][0]):
+                    if isinstance(t, np.ndarray) and t.flags.writeable:
+                        t[...] = t * 0.5 - 3.25 * S['l']
+            keep_x = None if not stored else np.array(pn.x).copy()
+            base = {nm: ((_fresh(v[1]) if nm in ('density', 'density_c') else v[0]), v[1]) for nm, v in base.items()}
+            ledger = [(tag, nm, _fresh(cop), cop) if (tag == 'first reading' and nm in ('density', 'density_c')) else (tag, nm, raw, cop) for (tag, nm, raw, cop) in ledger]
+            what += ': the caller overwrote the arrays disldensity() had returned'
+
+            def restore():
+                # (only needed while newx is a view of the stored / the caller's x)
+                overwrite(held['x'], orig['x'])
+                if stored and not np.array_equal(pn.x, orig['x']):
+                    pn.x = held['x']
+                resnap(held['x'])
+        elif kind == 'overwrite_args':
+            if last_args is None:
+                labels.add('op_skipped')
+                continue
+            xs, ds, xs0, ds0 = last_args
+            xs[...] = 2.0 * xs + S['l']
+            ds[...] = -ds
+            what += ': the caller overwrote the x / disregistry arrays it had given as arguments of an earlier evaluation'
+            last_args = None
+        else:
+            raise KeyError(kind)
+        try:
+            ledger_intact(ledger, 'after ' + what)
+            same_answers(base, pn_read(pn, args, stored, 9 + num), 'after ' + what)
+            H.verify(' [after %s]' % what)
+        except (Violation, AssertionError) as e:
+            if isinstance(e, AssertionError):
+                e = Violation('after %s: AssertionError(%s)' % (what, e))
+            if kind in ('overwrite_in', 'overwrite_out', 'overwrite_args') and _tree_pnshare_broken():
+                # unchanged tree: the object keeps the caller's arrays / hands out views of them (open finding): reported at
+                # the end of the case; the caller's arrays are put back so that the rest of the history is judged
+                pending = pending or Violation(e.detail, key=K_PNSHARE)
+                if restore is not None:
+                    restore()
+                ledger = [(tag, nm, raw, _copy_of(raw)) for (tag, nm, raw, cop) in ledger]
+                labels.add('alias_' + kind)
+                same_answers(base, pn_read(pn, args, stored, 9 + num), 'after ' + what + ' and after the caller put its arrays back')
+            else:
+                raise e
+    x_now = np.asarray(held['x'], dtype=float) if not stored else np.asarray(pn.x, dtype=float)
+    if np.array_equal(x_now, x):
+        judge_total(pn, S, K, st_, x, d, args if (stored or np.array_equal(np.asarray(held['disregistry'], dtype=float), d)) else (x, d), {}, set())
+        labels.add('judged_after')
+    labels.add('nt')
+    if pending is not None:
+        raise pending
+    return labels
+
+
+def _tree_pnshare_broken():
+    """probe of the tree under test for the open finding K_PNSHARE (cached per process)"""
+    if 'pnshare' not in _PROBE:
+        try:
+            import atomman as am
+            g = am.defect.GammaSurface(a1vect=[1, 0, 0], a2vect=[0, 0, 1], a1=[0.0, 0.0, 0.5, 0.5], a2=[0.0, 0.5, 0.0, 0.5],
+                                       E_gsf=[0.0, 1.0, 1.0, 2.0])
+            vol = _hand_volterra_class(am)(np.array([1.0, 0, 0]), np.array([0, 1.0, 0]), np.eye(3), np.array([1.0, 0, 0]), np.eye(3))
+            t, b = np.zeros((3, 3)), np.eye(3)
+            pn = am.defect.SDVPN(volterra=vol, gamma=g, tau=t, beta=b)
+            xs, ds = np.arange(5.0), np.zeros((5, 3))
+            pn.x, pn.disregistry = xs, ds
+            nx = pn.disldensity()[0]
+            _PROBE['pnshare'] = any(np.shares_memory(a, c) for a, c in ((pn.x, xs), (pn.disregistry, ds), (pn.tau, t), (pn.beta, b), (nx, pn.x)))
+        except Exception:
+            _PROBE['pnshare'] = True
+    return _PROBE['pnshare']
+
+
+# ----------------------------------------------------------------------------- pn_options (enumerated)
+_OPT_SYS = [
+    {'sys': {'frame': ['x', 'y'], 'rotf': None, 'T': None, 'K': {'kind': 'hand', 'eig': [0.5, 0.8, 0.3], 'rot': [[1.0, 2.0, 0.5], 40.0]}, 'b': 2.5, 'phi': 30.0,
+             'gamma': {'a1len': 2.5, 'a1ang': 30.0, 'a2len': 4.0, 'a2rel': 75.0, 'n1': 5, 'n2': 4, 'dup': False, 'Eseed': 11, 'scale': 0.05}, 'lk': 0, 'ej': 0},
+     'N': 9, 'kstep': 5},
+    {'sys': {'frame': ['z', 'x'], 'rotf': None, 'T': [[0.0, 1.0, 1.0], 25.0], 'K': {'kind': 'hand', 'eig': [0.3, 0.4, 0.9], 'rot': [[1.0, 0.0, 0.5], 70.0]}, 'b': 3.2, 'phi': -60.0,
+             'gamma': {'a1len': 3.2, 'a1ang': -60.0, 'a2len': 2.0, 'a2rel': 90.0, 'n1': 4, 'n2': 6, 'dup': True, 'Eseed': 5, 'scale': 0.1}, 'lk': -10, 'ej': 3},
+     'N': 12, 'kstep': 8},
+    {'sys': {'frame': ['vec', 'vec'], 'rotf': {'sperm': 7}, 'T': {'sperm': 13}, 'K': {'kind': 'hand', 'eig': [0.6, 0.2, 0.7], 'rot': None}, 'b': 2.0, 'phi': 90.0,
+             'gamma': {'a1len': 3.0, 'a1ang': 10.0, 'a2len': 2.5, 'a2rel': 60.0, 'n1': 6, 'n2': 5, 'dup': False, 'Eseed': 23, 'scale': 0.02}, 'lk': 2, 'ej': -4},
+     'N': 8, 'kstep': 4},
+    {'sys': {'frame': ['y', 'z'], 'rotf': None, 'T': None, 'K': {'kind': 'hand', 'eig': [1.1, 0.9, 0.5], 'rot': [[0.3, 1.0, 0.2], 110.0]}, 'b': 3.9, 'phi': 135.0,
+             'gamma': {'a1len': 3.9, 'a1ang': 135.0, 'a2len': 5.0, 'a2rel': 110.0, 'n1': 7, 'n2': 4, 'dup': True, 'Eseed': 3, 'scale': 0.05}, 'lk': 0, 'ej': 0},
+     'N': 10, 'kstep': 6},
+]
+_OPT_SET = {'tau': [[0.0, 0.013, 0.0], [0.013, -0.007, 0.011], [0.0, 0.011, 0.0]], 'alpha': [0.02, 0.011],
+            'beta': [[0.11, 0.02, 0.0], [0.02, 0.05, -0.03], [0.0, -0.03, 0.21]], 'cutoff': 320.0, 'tbform': 'arr'}
+_OPT_PROF = {'x0': 1.75, 'w': 0.9, 'center': 0.3, 'pert': [[0.12, 2], [-0.2, 3]], 'ramp': [0.05, -0.1], 'fx': 'arr', 'fd': 'arr', 'xint': None, 'round': False}
+_OPT_CACHE = {}
+
+
+def _option_system(k):
+    if k not in _OPT_CACHE:
+        o = _OPT_SYS[k % len(_OPT_SYS)]
+        S = build_pn_system(o['sys'])
+        x, d = build_profile(dict(_OPT_PROF, N=o['N'], kstep=o['kstep']), S['b'], S['l'])
+        _OPT_CACHE[k] = (S, x, d)
+    return _OPT_CACHE[k]
+
+
+def oracle_pn_options(case):
+    """one way of reaching one combination of the flags fullstress / cdiffelastic / cdiffsurface / cdiffstress (see
+    gens_c18.option_cases): after every single change of a flag all terms and the total are judged as in pn_terms / pn_total"""
+    S, x, d = _option_system(case['sys'])
+    blocked_multi(S)
+    base = scale_settings(_OPT_SET, S)
+    st_ = dict(base, **{f: bool(t) for f, t in zip(G.FLAGS, case['start'])})
+    pn = make_sdvpn(S, st_)
+    K = np.asarray(pn.K_tensor, dtype=float)
+    labels = {'via_' + case['via'], 'nchanged_%d' % len(case['order']), 'sys_%d' % case['sys'], 'nt'}
+
+    def judge(tag):
+        try:
+            judge_terms(pn, S, K, st_, x, d, (x, d), {}, set())
+            judge_total(pn, S, K, st_, x, d, (x, d), {}, set())
+        except Violation as e:
+            raise Violation('%s [flags %s%s]' % (e.detail, ', '.join('%s=%r' % (f, st_[f]) for f in G.FLAGS), tag), key=e.key)
+        for f in G.FLAGS:
+            require(getattr(pn, f) is st_[f], lambda: 'flag %s reads %r, was set to %r%s' % (f, getattr(pn, f), st_[f], tag))
+
+    judge(' given to the constructor')
+    if case['via'] == 'setters':
+        for num, i in enumerate(case['order']):
+            f = G.FLAGS[i]
+            setattr(pn, f, bool(case['target'][i]))
+            st_[f] = bool(case['target'][i])
+            judge(' [after setting %s; setter sequence %s from the constructor\'s %s]' % (
+                f, [G.FLAGS[j] for j in case['order'][:num + 1]], dict(zip(G.FLAGS, case['start']))))
+    elif case['via'] == 'solve_kw':
+        kw = {G.FLAGS[i]: bool(case['target'][i]) for i in case['order']}
+        pn.solve(x=x, disregistry=d, min_method='Nelder-Mead', min_options={'maxiter': 2}, **kw)
+        st_.update(kw)
+        d1 = np.asarray(pn.disregistry, dtype=float)
+        _total_in_band(pn, S, st_, x, d1, K, (), {}, 'total_energy() of the stored solution after solve(%s)' % ', '.join('%s=%r' % kv for kv in sorted(kw.items())))
+        judge(' [after solve(%s) on an object built with %s]' % (', '.join('%s=%r' % kv for kv in sorted(kw.items())), dict(zip(G.FLAGS, case['start']))))
     return labels
 
 
@@ -2064,14 +3093,14 @@ CLAUSES = [
            min_share={'nt': 0.35, 'oblique': 0.28, 'shifted': 0.35, 'scalar': 0.18, 'history_mode_order': 0.2, 'history_mode_back': 0.1,
                       'lscale_1': 0.2, 'lscale_small': 0.17, 'lscale_big': 0.05, 'escale_1': 0.22, 'escale_small': 0.1, 'escale_big': 0.11},
            desc='E(a1+k1, a2+k2) = E(a1, a2) for integer periods; nearest mode equals the exact nearest-sample table'),
-    Clause('coords', keyed_inplane_assert(oracle_coords), G.coords_cases, quick=1200, thorough=20000,
+    Clause('coords', with_units(keyed_f16(keyed_inplane_assert(oracle_coords))), G.coords_cases, quick=1200, thorough=20000,
            min_share={'nt': 0.45, 'oblique': 0.4, 'npts3': 0.15, 'xvect': 0.18, 'scalar': 0.18,
                       'history': 0.25, 'history_reload_set': 0.08, 'history_reload_model': 0.08, 'history_swap': 0.08, 'history_other_mode': 0.04,
                       'form_ro': 0.06, 'form_strided': 0.05, 'form_tuple': 0.04, 'form_npscalar': 0.04, 'form_int': 0.05, 'int_typed': 0.04,
                       'lscale_1': 0.22, 'lscale_small': 0.15, 'lscale<=1e-5': 0.1, 'lscale_big': 0.06,
                       'escale_small': 0.1, 'escale_big': 0.09},
            desc='a12_to_pos, pos_to_xy, xy_to_pos, a12_to_xy, pos_to_a12(single) against independent basis algebra; mutual inverses'),
-    Clause('coords_multi', keyed_inplane_assert(oracle_coords_multi), G.coords_cases, quick=1200, thorough=20000,
+    Clause('coords_multi', with_units(keyed_f16(keyed_inplane_assert(oracle_coords_multi))), G.coords_cases, quick=1200, thorough=20000,
            min_share=_BlockedGuard({'nt': 0.3, 'oblique': 0.25, 'npts3': 0.1, 'npts7': 0.06, 'altvect': 0.18, 'smooth': 0.15, 'nearest': 0.2,
                                     'history': 0.25, 'history_reload_set': 0.1, 'history_reload_model': 0.08, 'history_swap': 0.1,
                                     'history_other_mode': 0.05,
@@ -2086,11 +3115,11 @@ CLAUSES = [
                                              'combo_a1only_xexplicit', 'combo_a2only_xdefault', 'combo_a2only_xexplicit')),
            desc='pos_to_a12 / xy_to_a12 on 1,2,3,7 positions; E_gsf and delta given a1/a2, pos, x/y agree; every combination of the '
                 'keywords a1vect / a2vect / xvect of all conversion methods and of E_gsf / delta; input forms; caller\'s arrays unchanged'),
-    Clause('model', oracle_model, G.model_cases, quick=400, thorough=6000,
+    Clause('model', with_units(oracle_model), G.model_cases, quick=400, thorough=6000,
            min_share={'nt': 0.3, 'json': 0.3, 'history_load_into_existing': 0.2,
                       'lscale_1': 0.2, 'lscale_small': 0.19, 'lscale_big': 0.05, 'escale_1': 0.22, 'escale_small': 0.1, 'escale_big': 0.09},
            desc='model() -> JSON/XML text, DataModelDict or file -> GammaSurface: same data, vectors, box, answers'),
-    Clause('pn_terms', oracle_pn_terms, G.pn_hist_cases, quick=1500, thorough=25000,
+    Clause('pn_terms', with_units(keyed_dtype(oracle_pn_terms)), G.pn_hist_cases, quick=1500, thorough=25000,
            min_share=_BlockedGuard({'nt': 0.16, 'mixed': 0.23, 'K_offdiag': 0.13, 'N>120': 0.1, 'cdiffelastic': 0.15, 'tau': 0.15,
                                     'history': 0.2, 'history_same_len_new_spacing': 0.12, 'history_setter_between': 0.15,
                                     'history_settings_changed': 0.12, 'history_new_len': 0.06, 'history_steps>=2': 0.15,
@@ -2101,7 +3130,7 @@ CLAUSES = [
                                    drop_listarg=('list_args',)),
            desc='disldensity, elastic, long-range, stress (both forms), surface, nonlocal vs independent formula evaluation; quadratic form, rigid shift; '
                 'repeated evaluations on one object (arguments / setters / changed settings)'),
-    Clause('pn_total', keyed_inplane_assert(oracle_pn_total), G.pn_hist_cases, quick=1000, thorough=16000,
+    Clause('pn_total', with_units(keyed_dtype(keyed_inplane_assert(oracle_pn_total))), G.pn_hist_cases, quick=1000, thorough=16000,
            min_share=_BlockedGuard({'nt': 0.15, 'mixed': 0.23, 'wraps': 0.1, 'crystal_rot': 0.15,
                                     'history': 0.17, 'history_same_len_new_spacing': 0.09, 'history_setter_between': 0.12,
                                     'history_settings_changed': 0.06, 'history_new_len': 0.035,
@@ -2112,7 +3141,7 @@ CLAUSES = [
                                    drop_listarg=('list_args',)),
            desc='misfit energy vs dx*sum gamma(delta) by independent conversion; total = sum of the six terms = independent evaluation; '
                 'repeated evaluations on one object'),
-    Clause('solve', keyed_inplane_assert(oracle_solve), G.solve_cases, quick=64, thorough=640, max_share={'timeout_skipped': 0.2},
+    Clause('solve', keyed_dtype(keyed_inplane_assert(oracle_solve)), G.solve_cases, quick=64, thorough=640, max_share={'timeout_skipped': 0.2},
            min_share=_BlockedGuard({'moved': 0.5, 'lowered': 0.4, 'history': 0.28, 'history_same_len_new_spacing': 0.05,
                                     'history_eval_between_store_and_solve': 0.07,
                                     'forms': 0.4, 'int_typed': 0.2, 'dform_int': 0.08, 'dform_ro': 0.03,
@@ -2123,6 +3152,18 @@ CLAUSES = [
     Clause('halfwidth', oracle_halfwidth, G.halfwidth_cases, quick=32, thorough=320,
            min_share=_BlockedGuard({'scaled': 0.3, 'lscale_small': 0.12, 'lscale_1': 0.2}),
            desc='sinusoidal misfit law: arctangent profile of lowest total energy has the classical half-width K b^2/(4 pi^2 gamma0)'),
-    Clause('arctan', oracle_arctan, G.arctan_cases, quick=1500, thorough=25000, min_share={'nt': 0.5, 'normalize': 0.2, 'derivative': 0.15, 'lscale_1': 0.2, 'lscale_small': 0.2, 'lscale<=1e-5': 0.13, 'lscale_big': 0.06},
+    Clause('decades', oracle_decades, G.decades_cases, quick=400, thorough=8000,
+           desc='one query array whose rows span 8-11 orders of magnitude: every conversion row by row relative to the magnitude of the row and '
+                'equal to the call with that row alone; E_gsf / delta of the array equal every row alone'),
+    Clause('ledger', oracle_ledger, G.ledger_cases, quick=400, thorough=8000,
+           desc='result ledger and caller-side mutation for GammaSurface: everything returned is kept and re-judged bit for bit, every answer is read '
+                'again, after later calls on this and another surface and after the caller overwrote / re-defined / re-used what it handed in and got back'),
+    Clause('ledger_pn', keyed_inplane_assert(oracle_ledger_pn), G.ledger_pn_cases, quick=300, thorough=6000,
+           desc='the same for SDVPN: x / disregistry / tau / beta overwritten by the caller, arrays returned by disldensity overwritten, another '
+                'object on the same gamma surface evaluated, re-set and solved'),
+    Clause('pn_options', oracle_pn_options, enumerate=G.option_cases,
+           desc='every combination of fullstress / cdiffelastic / cdiffsurface / cdiffstress reached from every other one through the setters in every '
+                'order, through the constructor and through solve() keywords; all terms judged after every single change'),
+    Clause('arctan', with_units(oracle_arctan), G.arctan_cases, quick=1500, thorough=25000, min_share={'nt': 0.5, 'normalize': 0.2, 'derivative': 0.15, 'lscale_1': 0.2, 'lscale_small': 0.2, 'lscale<=1e-5': 0.13, 'lscale_big': 0.06},
            desc='pn_arctan_disregistry / pn_arctan_disldensity against the analytic forms, normalisation, x generation'),
 ]
